@@ -33,9 +33,11 @@ type Oblig struct {
 	name    string
 	nf      int // number of facts known when the obligation was generated: only those may be used
 	clause  *Clause // the contract clause a post obligation stems from (for replay)
+	VCHash  string  // hash of the verification condition sent to the solvers (comments excluded)
 }
 
 type Engine struct {
+	replayFacts [][2]string // (array symbol, assertion): added to the queries that extract a counterexample for replay
 	specCtx  string   // "loop"/"call" while clauses attached to code locations are evaluated (they may name locals)
 	stale    []string // such clauses that name a local the code no longer has
 	condAssume bool // assume() is conditional on the current path condition (set while a native model runs)
@@ -244,8 +246,12 @@ func (e *Engine) strLit(s string) string {
 			e.assume(fmt.Sprintf("(= (sat %s %d) %d)", nm, i, s[i]))
 		}
 	}
-	for o, onm := range e.strlits {
-		_ = o
+	var others []string
+	for _, onm := range e.strlits {
+		others = append(others, onm)
+	}
+	sort.Strings(others)
+	for _, onm := range others {
 		e.assume(fmt.Sprintf("(not (= %s %s))", nm, onm))
 	}
 	e.strlits[s] = nm
